@@ -1454,6 +1454,33 @@ func rulesC18(w *World, o *Out) {
 			}
 		}
 	}
+	// the sale's fee grant goes from the configured fee granter to the client (the ante decorator accepts a grantee
+	// as signer for the granter's messages, so the direction decides who may act for whom)
+	if cs := w.Func(pk, "Keeper", "CreateSaleLightNodeClientLicense"); cs != nil {
+		ga := FindCalls(cs, false, func(c Callee) bool { return c.Name == "GrantAllowance" })
+		o.Count("C18.R3 fee grants in the sale path", len(ga), 1)
+		for _, g := range ga {
+			args := g.Args()
+			if len(args) < 4 {
+				continue
+			}
+			granter, grantee := args[len(args)-3], args[len(args)-2]
+			fromCfg := func(v ssa.Value) bool {
+				return fl.DependsOnCall(v, isCallee(pk, "Keeper", "LightNodeClientFeegranter")) != nil
+			}
+			fromClient := func(v ssa.Value) bool {
+				x, _ := fl.Influence(v)
+				for ap := range x {
+					if q, isP := ap.Root.(*ssa.Parameter); isP && q.Parent() == cs && q.Name() == "clientAddr" {
+						return true
+					}
+				}
+				return false
+			}
+			ok := fromCfg(granter) && !fromClient(granter) && fromClient(grantee) && !fromCfg(grantee)
+			o.Check("C18.R3", "sale|the fee allowance is granted by the fee granter to the client", ok, w.Pos(g.Instr.Pos()), "GrantAllowance(granter, grantee): granter must be the configured LightNodeClientFeegranter account and grantee the client; swapped, the fee granter account becomes an authorised signer for every message in the client's name")
+		}
+	}
 	// replacing the sale contracts revokes every contract not listed again: the purge visits all stored entries
 	if sa := w.MustFunc(o, skw, "Keeper", "SetAllLighNodeSaleContracts"); sa != nil {
 		o.Analysed(w.FuncKey(sa))
